@@ -1,5 +1,53 @@
 import Sigc.Model
-import Sigc.Spec
-/-! property theorems for C03 (being written) -/
+import Sigc.Lemmas.Basic
+import Sigc.Lemmas.Frames
+/-!
+# C03 — slots may connect, disconnect, destroy or re-emit during an emission, safely
+(first theorems: the deferral rule; the all-history safety theorem is being proved in Sigc/Lemmas/Emit*.lean)
+-/
 namespace Sigc.C03
+open Sigc.Model
+
+/-- while an emission (or `clear`/`sweep`) of list `i` is running (`exec > 0`), the parent
+    notification of a disconnected slot erases nothing: the list is untouched, only `deferred` is set -/
+theorem notifyParent_defers_while_emitting (s : St) (i cid : Nat) (im : Impl)
+    (hi : aget s.impls i = some im) (he : im.exec > 0) :
+    (notifyParent s i cid).impls = aset s.impls i { im with deferred := true } ∧
+    (notifyParent s i cid).C = s.C ∧ (notifyParent s i cid).K = s.K := by
+  unfold notifyParent
+  have : ¬ im.exec = 0 := by omega
+  simp [hi, this]
+
+/-- outside any emission the cell is erased at once and every connection to it is nulled -/
+theorem notifyParent_erases_when_idle (s : St) (i cid : Nat) (im : Impl)
+    (hi : aget s.impls i = some im) (he : im.exec = 0) :
+    notifyParent s i cid = eraseCell s i cid := by
+  unfold notifyParent
+  simp [hi, he]
+
+/-- `unreference_exec()`: the deferred sweep runs exactly when the execution count returns to zero -/
+theorem unrefExec_sweeps_iff (s : St) (i : Nat) (im : Impl) (hi : aget s.impls i = some im) :
+    unrefExec s i =
+      (if im.exec - 1 = 0 ∧ im.deferred = true
+       then sweep (setImpl s i { im with exec := im.exec - 1 }) i
+       else setImpl s i { im with exec := im.exec - 1 }) := by
+  unfold unrefExec
+  simp only [hi]
+  by_cases h1 : im.exec - 1 = 0 <;> by_cases h2 : im.deferred = true <;> simp [h1, h2]
+
+/-- `sweep()` leaves only non-empty cells and resets `deferred` -/
+theorem sweep_leaves_no_empty (s : St) (i : Nat) (im : Impl) (hi : aget s.impls i = some im) :
+    ∃ im', aget (sweep s i).impls i = some im' ∧ im'.deferred = false ∧ ∀ c ∈ im'.cells, c.slot.empty = false := by
+  unfold sweep
+  simp only [hi]
+  rw [nullConnsList_impls]
+  refine ⟨{ im with deferred := false, cells := im.cells.filter (fun c => !c.slot.empty) }, by simp, rfl, ?_⟩
+  intro c hc
+  simp at hc
+  simpa using hc.2
+
+example : (notifyParent { impls := [(1, { cells := [{ id := 2, slot := {}, linked := false }], exec := 1 })] } 1 2).impls
+    = [(1, { cells := [{ id := 2, slot := {}, linked := false }], exec := 1, deferred := true })] := by
+  simp [notifyParent, aget, setImpl, aset]
+
 end Sigc.C03
